@@ -1,6 +1,6 @@
 (* Single entry point used by the extracted binary and by `Eval vm_compute` case files. *)
 From Coq Require Import List NArith ZArith Bool.
-From Dznpy Require Import Base.PyStr Base.Sexp Run.RunText Run.RunScope Run.RunPorts.
+From Dznpy Require Import Base.PyStr Base.Sexp Run.RunText Run.RunScope Run.RunPorts Run.RunJson.
 Import ListNotations.
 Open Scope Z_scope.
 
@@ -10,6 +10,7 @@ Definition run (x : sexp) : sexp :=
   if (100 <=? t) && (t <? 200) then run_text t a
   else if (200 <=? t) && (t <? 300) then run_scope t a
   else if (300 <=? t) && (t <? 400) then run_ports t a
+  else if (400 <=? t) && (t <? 500) then run_json t a
   else SL [SI (-1)].
 
 Definition run_all (l : list sexp) : list sexp := map run l.
